@@ -574,3 +574,159 @@ func init() {
 	// context tracer methods are logging
 	regPrefix("(*github.com/safing/portbase/log.ContextTracer).", func(fr *frame, args []Value) Value { return fr.e.zeroResults(fr.fn) })
 }
+
+// ---------- fmt.Fprintf to buffers, reflect.DeepEqual on plain data ----------
+
+func init() {
+	fprint := func(render func(e *Exec, args []Value) Str) intrinsicFn {
+		return func(fr *frame, args []Value) Value {
+			e := fr.e
+			w := args[0].(Iface)
+			msg := render(e, args[1:])
+			if w.t == nil {
+				panic(targetPanic{e.runtimeError("invalid memory address or nil pointer dereference (Fprintf to nil writer)"), "fmt.Fprintf"})
+			}
+			if w.t.String() == "*os.File" {
+				return Tuple{e.tt.BV(64, uint64(len(msg.b))), Iface{}}
+			}
+			m := e.findMethod(w.t, "Write")
+			if m == nil {
+				unsupported("Fprintf: writer without Write")
+			}
+			a := make([]Value, len(msg.b))
+			for i, b := range msg.b {
+				a[i] = b
+			}
+			return e.callSSA(fr, 0, m, []Value{w.v, Slice{a}}, nil)
+		}
+	}
+	reg("fmt.Fprintf", fprint(func(e *Exec, args []Value) Str { return e.formatMsg(args[0].(Str), variadic(args[1])) }))
+	plain := func(nl bool) func(e *Exec, args []Value) Str {
+		return func(e *Exec, args []Value) Str {
+			var out []*Term
+			for i, a := range variadic(args[0]) {
+				if i > 0 && nl {
+					out = append(out, e.tt.BV(8, ' '))
+				}
+				out = append(out, e.formatMsg(e.strConst("%v"), []Value{a}).b...)
+			}
+			if nl {
+				out = append(out, e.tt.BV(8, '\n'))
+			}
+			return Str{out}
+		}
+	}
+	reg("fmt.Fprint", fprint(plain(false)))
+	reg("fmt.Fprintln", fprint(plain(true)))
+	reg("reflect.DeepEqual", func(fr *frame, args []Value) Value {
+		e := fr.e
+		a, b := args[0].(Iface), args[1].(Iface)
+		if a.t == nil || b.t == nil {
+			return e.tt.Bool(a.t == nil && b.t == nil)
+		}
+		if !types.Identical(a.t, b.t) {
+			return e.tt.False
+		}
+		return e.deepEq(a.v, b.v)
+	})
+}
+
+func (e *Exec) deepEq(x, y Value) *Term {
+	switch xv := x.(type) {
+	case Slice:
+		yv, ok := y.(Slice)
+		if !ok || len(xv.a) != len(yv.a) || (xv.a == nil) != (yv.a == nil) {
+			return e.tt.False
+		}
+		r := e.tt.True
+		for i := range xv.a {
+			r = e.tt.And(r, e.deepEq(xv.a[i], yv.a[i]))
+		}
+		return r
+	case *Term, Str, Float:
+		return e.eqVal(x, y)
+	case Struct:
+		yv, ok := y.(Struct)
+		if !ok || len(xv) != len(yv) {
+			return e.tt.False
+		}
+		r := e.tt.True
+		for i := range xv {
+			r = e.tt.And(r, e.deepEq(xv[i], yv[i]))
+		}
+		return r
+	case Array:
+		yv, ok := y.(Array)
+		if !ok || len(xv) != len(yv) {
+			return e.tt.False
+		}
+		r := e.tt.True
+		for i := range xv {
+			r = e.tt.And(r, e.deepEq(xv[i], yv[i]))
+		}
+		return r
+	}
+	unsupported("reflect.DeepEqual on %T", x)
+	return nil
+}
+
+// ---------- hashicorp/go-version: concrete version strings ----------
+
+func init() {
+	reg("github.com/hashicorp/go-version.NewVersion", func(fr *frame, args []Value) Value {
+		e := fr.e
+		s := e.mustConcStr(args[0], "version string")
+		vt := e.namedType("github.com/hashicorp/go-version", "Version")
+		core, pre := s, ""
+		if i := strings.IndexByte(s, '-'); i >= 0 {
+			core, pre = s[:i], s[i+1:]
+		}
+		core = strings.TrimPrefix(core, "v")
+		parts := strings.Split(core, ".")
+		if len(parts) == 0 || len(parts) > 3 || core == "" {
+			return Tuple{(*Value)(nil), e.newErrorString(e.strConst("Malformed version: " + s))}
+		}
+		var segs []Value
+		for _, p := range parts {
+			var n uint64
+			if p == "" {
+				return Tuple{(*Value)(nil), e.newErrorString(e.strConst("Malformed version: " + s))}
+			}
+			for _, c := range p {
+				if c < '0' || c > '9' {
+					return Tuple{(*Value)(nil), e.newErrorString(e.strConst("Malformed version: " + s))}
+				}
+				n = n*10 + uint64(c-'0')
+			}
+			segs = append(segs, e.tt.BV(64, n))
+		}
+		si := len(segs)
+		for len(segs) < 3 {
+			segs = append(segs, e.tt.BV(64, 0))
+		}
+		v := e.zero(vt).(Struct)
+		setField(v, vt, "segments", Slice{segs})
+		setField(v, vt, "pre", e.strConst(pre))
+		setField(v, vt, "si", e.tt.BV(64, uint64(si)))
+		setField(v, vt, "original", e.strConst(s))
+		var cell Value = v
+		return Tuple{&cell, Iface{}}
+	})
+	// String(): normalised "a.b.c[-pre]" (fmt based in the original)
+	reg("(*github.com/hashicorp/go-version.Version).String", func(fr *frame, args []Value) Value {
+		e := fr.e
+		vt := e.namedType("github.com/hashicorp/go-version", "Version")
+		v := (*fr.derefArg(args[0], "Version.String")).(Struct)
+		segs := (*getField(v, vt, "segments")).(Slice)
+		var parts []string
+		for _, s := range segs.a {
+			parts = append(parts, fmt.Sprint(s.(*Term).k))
+		}
+		out := strings.Join(parts, ".")
+		pre, _ := concStr((*getField(v, vt, "pre")).(Str))
+		if pre != "" {
+			out += "-" + pre
+		}
+		return e.strConst(out)
+	})
+}
